@@ -12,7 +12,7 @@ use std::ffi::c_void;
 pub const INFO: CheckInfo = CheckInfo {
     prop: "C19",
     level: "model_checking",
-    rule: "raw streams of the R4 corpus (valid and invalid) with every truncation and single-bit flip, plus all byte strings <= 2 (3) bytes, x windowBits 8..15 x input-callback slicings (ALL compositions for streams <= 9 bytes, otherwise one call, 1-byte slices, every single split, end-of-input (0-length slice) at every position) x output-callback abort at every callback index; the caller's window and every input slice live in guard-paged arenas (window in both placements). Safety (no signal/panic, documented status, termination) is required on everything. Where the strict reference decoder R2 (window = 1 << windowBits) finds every back-reference within min(window, bytes produced so far), inflateBack must hand the output callback exactly the bytes inflate produces, with corresponding verdict (stream end / data error / input exhausted) and unused-input count. distinct_nontrivial = distinct (status, output, unused input) outcomes.",
+    rule: "raw streams of the R4 corpus (valid and invalid) with every truncation and single-bit flip, plus all byte strings <= 2 (3) bytes, x windowBits 8..15 x input-callback slicings (ALL compositions for streams <= 9 bytes, otherwise one call, 1-byte slices, every single split, end-of-input (0-length slice) at every position) x output-callback abort at every callback index; the caller's window and every input slice live in guard-paged arenas (window in both placements). Safety (no signal/panic, documented status, termination) is required on everything. Where the strict reference decoder R2 (window = 1 << windowBits) finds every back-reference within min(window, bytes produced so far), inflateBack must hand the output callback exactly the bytes inflate produces, with corresponding verdict (stream end / data error / input exhausted) and unused-input count. distinct_nontrivial = distinct (status, output, unused input) outcomes. For every prefix (input callback returning 0 after i bytes, every i, strings <= 300 bytes) the verdict and output are those of inflate on exactly those i bytes.",
     assumptions: &["for back-references into the not-yet-written part of the caller's window only safety and termination are required (zlib: 'whatever the window contains')", "R2 trusted"],
     bound_quick: "corpus programs <= 3 tokens, windowBits {8,9,15} on every stream and 8..15 on intact streams; strings <= 2 bytes",
     bound_thorough: "windowBits 8..15 on every mutation; strings <= 3 bytes",
@@ -218,6 +218,29 @@ fn compare(c: &mut Case, env: &Env, benv: &BackEnv, wbits: i32, data: &[u8]) -> 
                         }
                     }
                     _ => {}
+                }
+            }
+            // end of input after i bytes: the verdict is the one inflate gives on exactly those i bytes
+            if *eof && n <= 300 {
+                let i = plan.first().copied().unwrap_or(0);
+                let prefix = &data[..i];
+                if in_window(prefix, wbits) {
+                    c.exec();
+                    let r = run_inflate::<Rs>(-15, prefix, &ISched::one_shot(), env, &IExtra::default(), None)?;
+                    let want = match r.fin {
+                        Fin::StreamEnd => Some(Z_STREAM_END),
+                        Fin::DataError => Some(Z_DATA_ERROR),
+                        Fin::NeedMore => Some(Z_BUF_ERROR),
+                        _ => None,
+                    };
+                    if let Some(w) = want {
+                        if b.ret != w {
+                            return Err(format!("input ends after {i} of {n} bytes: inflate on those bytes says {:?}, inflateBack({wbits}) returns {}", r.fin, rc_name(b.ret)));
+                        }
+                        if w != Z_DATA_ERROR && b.out != r.out {
+                            return Err(format!("input ends after {i} of {n} bytes: inflate produced {} bytes, inflateBack handed out {}", r.out.len(), b.out.len()));
+                        }
+                    }
                 }
             }
             if *eof && b.ret == Z_STREAM_END && plan.first().copied().unwrap_or(0) < n {
